@@ -17,7 +17,7 @@ from vlib import cats, sources
 from vlib.core import ERROR, HELD, VIOLATED, Check, Scratch, result, case_bits
 
 
-def check_row_requests(events, n, c, passes_expected, what):
+def check_row_requests(events, n, c, passes_expected, what, partial=False):
     """events: list of (start, stop) in request order for one column/source.
     Returns list of (mechanism, detail)."""
     bad = []
@@ -34,7 +34,7 @@ def check_row_requests(events, n, c, passes_expected, what):
             cur = []
         cur.append((a, b))
     passes.append(cur)
-    if len(passes) != passes_expected:
+    if len(passes) != passes_expected and not (partial and len(passes) < passes_expected):
         bad.append(("request:wrong-number-of-passes", dict(what=what, got=len(passes), want=passes_expected, n=n, chunk=c)))
     for p in passes:
         count = np.zeros(n, dtype=int)
@@ -47,12 +47,14 @@ def check_row_requests(events, n, c, passes_expected, what):
             pos = b
         if not consecutive:
             bad.append(("request:not-consecutive", dict(what=what, requests=p[:6], n=n, chunk=c)))
+        if partial:  # an interrupted pass: a prefix, but never a row twice
+            count = np.where(count == 0, 1, count)
         if np.any(count != 1):
             k = int(np.flatnonzero(count != 1)[0])
             bad.append((f"request:row-requested-{'never' if count[k] == 0 else 'more-than-once'}",
                         dict(what=what, row=k, times=int(count[k]), n=n, chunk=c, requests=p[:6])))
         want_requests = -(-n // c)
-        if len(p) != want_requests and consecutive and not np.any(count != 1):
+        if len(p) != want_requests and consecutive and not np.any(count != 1) and not partial:
             bad.append(("request:not-the-chunk-partition", dict(what=what, got=len(p), want=want_requests, n=n, chunk=c)))
     return bad
 
@@ -132,6 +134,14 @@ class C18(Check):
             n = max(n, 60)
         cols = sources.make_table(rng, n, weights=True, redshifts=bool(rng.random() < 0.5), centres_xyz=centres,
                                   spread=np.deg2rad(1.5))
+        sparse_w = mode == "generate" and source != "random" and case_bits(case, "sparse-weights") % 2 == 0
+        if sparse_w:
+            # mostly masked objects (weight exactly 0): the probe for the centres is still drawn once
+            n = max(n, 120)
+            cols = sources.make_table(rng, n, weights=True, redshifts=False, centres_xyz=centres, spread=np.deg2rad(1.5))
+            keep_w = rng.random(n) < 0.12
+            keep_w[:8] = True
+            cols["w"] = np.where(keep_w, cols["w"], 0.0)
         if mode == "index":
             cols["patch"] = (np.arange(n) % P).astype("i8")
         if mode == "centres" and source != "random":
@@ -151,6 +161,12 @@ class C18(Check):
                 src_path = sources.write_source(source, tmp / ("input" + sources.EXT[source]), cols,
                                                 row_group_size=min(max(rgs, 1), n))
 
+            partial_log = {}
+            stream_fault = None
+            if case_bits(case, "stream-fault") % 6 == 0 and mode != "generate":
+                stream_fault = dict(after=int(rng.integers(0, 6)), forever=bool(rng.random() < 0.5))
+            saved_defaults = []
+
             def run():
                 import yaw.catalog.catalog as ycat
                 from yaw import Catalog
@@ -159,10 +175,33 @@ class C18(Check):
                 os.environ["YAW_NUM_THREADS"] = str(workers)
                 log = sources.RequestLog()
                 handed = []
+                partial_log.update(log=log, handed=handed)
                 names = dict(ra_name="ra", dec_name="dec", weight_name="w")
                 if "z" in cols:
                     names["redshift_name"] = "z"
                 kw = dict(chunksize=chunk, max_workers=workers)
+                if stream_fault is not None:
+                    # progress display on a stream that stops accepting writes (closed terminal or pipe)
+                    import io
+
+                    import yaw.utils.logging as ylog
+
+                    class DyingStream(io.TextIOBase):
+                        def __init__(self_):
+                            self_.n = 0
+
+                        def write(self_, text):
+                            self_.n += 1
+                            if self_.n > stream_fault["after"] and (stream_fault["forever"] or self_.n == stream_fault["after"] + 1):
+                                raise OSError(5, "Input/output error")
+                            return len(text)
+
+                        def flush(self_):
+                            pass
+
+                    saved_defaults.append((ylog.Indicator.__init__, dict(ylog.Indicator.__init__.__kwdefaults__)))
+                    ylog.Indicator.__init__.__kwdefaults__["stream"] = DyingStream()
+                    kw["progress"] = True
                 if case_bits(case, "prior") % 3 == 0:
                     # creation over an existing cache with overwrite=True: the input is still read once
                     prior = pd.DataFrame(dict(ra=[1.0, 2.0, 3.0], dec=[0.0, 1.0, 2.0], patch=[0, 1, 1]))
@@ -183,6 +222,7 @@ class C18(Check):
                     chunk_ = orig_next(self_)
                     if chunk_ is not None:
                         handed.append(int(len(chunk_)))
+                        log.add(op="handed", n=int(len(chunk_)))
                     return chunk_
 
                 readers.DataChunkReader.__next__ = logging_next
@@ -206,8 +246,23 @@ class C18(Check):
                 os.environ["YAW_NUM_THREADS"] = "1"
                 return dict(events=log.events, handed=handed)
 
+            def run_tolerating_stream_fault():
+                try:
+                    return run()
+                except OSError as e:
+                    if stream_fault is None:
+                        raise
+                    # the creation may fail when its progress output cannot be written; what it requested
+                    # of the input until then is still judged
+                    return dict(events=partial_log["log"].events, handed=partial_log["handed"], raised=f"{type(e).__name__}: {e}")
+                finally:
+                    for func, d in saved_defaults:
+                        func.__kwdefaults__.clear()
+                        func.__kwdefaults__.update(d)
+                    saved_defaults.clear()
+
             if workers > 1:
-                res = run_forked(run, workdir=tmp, wall_cap=120)
+                res = run_forked(run_tolerating_stream_fault, workdir=tmp, wall_cap=120)
                 if res["outcome"] == "quiescent":
                     bad("creation:hang", dict(stack=res.get("stack", "")[-500:]))
                     return out
@@ -224,7 +279,7 @@ class C18(Check):
 
                 saved = (readers.DataChunkReader.__next__, ycat.new_filereader)
                 try:
-                    obs = run()
+                    obs = run_tolerating_stream_fault()
                 except Exception as e:
                     bad(f"creation:raises-{type(e).__name__}", dict(error=str(e)[:300]))
                     return out
@@ -232,17 +287,21 @@ class C18(Check):
                     readers.DataChunkReader.__next__, ycat.new_filereader = saved
 
         events, handed = obs["events"], obs["handed"]
+        partial = "raised" in obs  # creation gave up because its progress stream died
         counters = dict(requests_logged=len(events), chunks_handed_on=len(handed))
+        if stream_fault is not None:
+            counters["stream_fault_runs"] = 1
+            counters["stream_fault_raised"] = int(partial)
         # chunks handed on
         if handed:
             if max(handed) > c_eff:
                 bad("chunk:longer-than-chunksize", dict(longest=max(handed), chunk=c_eff, n=n))
             per_pass = sum(handed) / passes_expected
             handed_passes = 1 if source == "random" else passes_expected  # the random probe is one direct draw
-            if sum(handed) != n * handed_passes:
+            if sum(handed) != n * handed_passes and not (partial and sum(handed) < n * handed_passes):
                 bad("chunk:records-handed-on-differ-from-input", dict(handed=sum(handed), want=n * handed_passes, passes=handed_passes))
             _ = per_pass
-        else:
+        elif not partial:
             bad("chunk:none-observed", {})
         # whole-input requests
         whole = [e for e in events if e["op"] in ("whole", "attr")]
@@ -256,11 +315,11 @@ class C18(Check):
             for e in events:
                 if e["op"] == "rows":
                     by_col.setdefault(e.get("col", "<frame>"), []).append((e["start"], e["stop"]))
-            if not by_col:
+            if not by_col and not partial:
                 bad("request:none-observed", dict(source=source))
             for col, ev in by_col.items():
                 counters["passes_checked"] = counters.get("passes_checked", 0) + passes_expected
-                for mech, detail in check_row_requests(ev, n, c_eff, passes_expected, f"{source}:{col}"):
+                for mech, detail in check_row_requests(ev, n, c_eff, passes_expected, f"{source}:{col}", partial=partial):
                     bad(mech, detail)
                 nreq_pass = max(nreq_pass, len(ev) // passes_expected)
         elif source == "parquet":
@@ -269,9 +328,23 @@ class C18(Check):
             ng = len(set(seq))
             want = list(range(ng)) * passes_expected
             counters["passes_checked"] = passes_expected
-            if seq != want:
+            if seq != want and not (partial and seq == want[: len(seq)]):
                 bad("request:row-groups-not-once-in-order", dict(got=seq[:20], passes=passes_expected))
-            if sum(e["rows"] for e in groups) != n * passes_expected:
+            # bounded read-ahead: at no time more rows requested than handed on + one chunk + the row group that completes it
+            ahead = worst = 0
+            biggest = max((e["rows"] for e in groups), default=0)
+            for e in events:
+                if e["op"] == "row_group":
+                    if e["index"] == 0:
+                        ahead = 0  # a new pass starts
+                    ahead += e["rows"]
+                elif e["op"] == "handed":
+                    ahead -= e["n"]
+                worst = max(worst, ahead)
+            counters["parquet_max_rows_ahead"] = worst
+            if worst > c_eff + 2 * biggest:
+                bad("request:reads-ahead-of-consumption", dict(rows_ahead=worst, chunk=c_eff, largest_row_group=biggest, n=n))
+            if sum(e["rows"] for e in groups) != n * passes_expected and not partial:
                 bad("request:row-groups-do-not-cover-input", dict(rows=sum(e["rows"] for e in groups), n=n))
             cols_req = {tuple(e["columns"]) if e["columns"] else None for e in groups}
             if None in cols_req:
@@ -287,7 +360,7 @@ class C18(Check):
                 bad("request:probe-larger-than-input", dict(draws=draws[:3], n=n))
             if any(d > c_eff for d in write_draws):
                 bad("request:longer-than-chunk", dict(what="random", request=max(write_draws), chunk=c_eff))
-            if sum(write_draws) != n:
+            if sum(write_draws) != n and not (partial and sum(write_draws) < n):
                 bad("request:row-requested-wrong-total", dict(total=sum(write_draws), n=n, chunk=c_eff))
             nreq_pass = len(write_draws)
 
